@@ -81,8 +81,8 @@ func (x *c36Node) vote(replies [][]byte, timer bool) (string, bool) {
 	}
 	x.log.take()
 	local := s.LocalMember()
-	existing := mlNode(local.Name, local.Addr, local.Port, 5)
-	other := mlNode(local.Name, net.IPv4(10, 77, 0, 9), 7946, 5)
+	existing := qMlNode(local.Name, local.Addr, local.Port, 5)
+	other := qMlNode(local.Name, net.IPv4(10, 77, 0, 9), 7946, 5)
 	x.n.conf.MemberlistConfig.Conflict.NotifyConflict(existing, other)
 	var oq *serf.VerifOpenQuery
 	t0 := time.Now()
